@@ -115,10 +115,6 @@ def r1(ctx):
     for fn, nd in writers:
         ok = (fn.key == "platform:Platform.__init__") or (fn.key == "platform:Platform.add_include_path" and isinstance(nd, ast.Call) and nd.func.attr == "append")
         ctx.check(ok, f"{fn.key}:writes:_include_paths:{u(nd)[:50]}", "the include path list may only be created empty and appended to (order = command-line order)", fn.loc(nd))
-    find = repo.func("finder", "find")
-    loops = [x for x in walk_no_nested(find.node) if isinstance(x, ast.For) and "include_paths" in u(x.iter)]
-    ok = len(loops) == 1 and u(loops[0].iter) == "e['include_paths']" and len(loops[0].body) == 1 and u(loops[0].body[0]) == f"file_platform.add_include_path({u(loops[0].target)})"
-    ctx.soft(ok, "finder:find:include-paths-in-order", "include paths must be handed to the platform one by one in list order, unfiltered", find.loc())
     ctx.floor(8 + 2)
 
 
@@ -219,68 +215,110 @@ def r3(ctx):
     ctx.floor(4)
 
 
-@rule("C04.R4", "in finder.find: -D and -I are applied, then every -include is resolved and associated, then the file itself - all on one fresh Platform")
-def r4(ctx):
-    repo = ctx.repo
+def find_entry_table(repo):
+    """Decision table of finder.find with the per-entry events made explicit (NEW_PLATFORM, FIND, WARN).
+    Evaluated on the whole function, so the shape of its loops (and helpers it was split into) is immaterial.
+    Returns (find, paths, E) where E denotes the first entry of the first platform of `configuration`."""
     find = repo.func("finder", "find")
-    loops = [x for x in walk_no_nested(find.node) if isinstance(x, ast.For) and any(isinstance(c, ast.Call) and (dotted(c.func) or "").endswith("Platform") for s in x.body for c in ast.walk(s) if isinstance(s, ast.Assign))]
-    ctx.require(len(loops) == 1, "finder.find: per-entry loop (the one constructing a Platform) not found")
-    loop = loops[0]
-    ev = u(loop.target)
+    conf = find.params[2]
 
     class H(Hooks):
         unroll = 1
 
         def on_call(self, call, ftext, args, kwargs, st):
-            if ftext.endswith("Platform") and ftext.split(".")[-1] == "Platform":
+            if ftext.split(".")[-1] == "Platform":
+                st.counter += 1
                 st.effect("NEW_PLATFORM", *args)
-                return Sym("PLAT")
+                return Sym(f"PLAT{sum(1 for e in st.effects if e[0] == 'NEW_PLATFORM')}")
             if ftext.startswith("log."):
-                st.effect("WARN")
+                st.effect("WARN", ftext, *args)
                 return None
             if ftext.endswith(".find_include_file"):
-                st.effect("FIND", ftext, *args)
+                st.effect("FIND", ftext, *args, *[(k, v) for k, v in kwargs.items()])
                 return Sym("FOUND")
-            if ftext == "preprocessor.macro_from_definition_string" or ftext == "macro_from_definition_string":
+            if ftext.split(".")[-1] == "macro_from_definition_string":
                 return Sym("MACRO(" + vtext(args[0]) + ")")
+            if ftext == "isinstance" and len(args) == 2 and vtext(args[1]) == "Path":
+                return False  # the str() conversion of rootdir is not at issue here
             return NOTHING
 
-    paths = Evaluator(H()).paths(find.node, body=loop.body, params={ev: Sym(ev)})
+    paths = Evaluator(H(), max_paths=6000).paths(find.node)
+    E = f"{conf}[{conf}[0]][0]"
+    return find, paths, E
+
+
+@rule("C04.R4", "in finder.find, per database entry: a fresh Platform named after the platform; every -I in order, every -D under the macro's own name, then every -include resolved from the file's directory and associated (or warned about), then the file itself - all on that Platform")
+def r4(ctx):
+    repo = ctx.repo
+    find, paths, ev = find_entry_table(repo)
+    conf = find.params[2]
+    n = 0
     for p in paths:
-        key = "finder:find:per-entry:" + ",".join(f"{k.split('#')[0][:40]}={int(v)}" for k, v in p.atoms.items())
         effs = p.effects
         newp = [e for e in effs if e[0] == "NEW_PLATFORM"]
-        main = [e for e in effs if e[0] == "call" and e[1] == "state.associate" and vtext(e[2]) == f"{ev}['file']"]
-        if len(newp) != 1 or effs.index(newp[0]) != 0:
-            ctx.violation(key, f"a fresh Platform must be created first for every entry: {p.describe()[:300]}", find.loc(loop))
+        n_ent = sum(1 for k, v in p.atoms.items() if k.startswith(f"more({conf}[{conf}[0]]#") and v)
+        n_plat = sum(1 for k, v in p.atoms.items() if re.match(r"more\(" + re.escape(conf) + r"#L\d+,\d+\)$", k) and v)
+        key = "finder:find:per-entry:" + ",".join(f"{k.split('#')[0].replace(ev, 'E')[:40]}={int(v)}" for k, v in p.atoms.items() if ev in k or k == "FOUND")
+        if not newp:
             continue
-        if len(main) != 1 or vtext(main[0][3]) != "PLAT" or effs.index(main[0]) != len(effs) - 1:
-            ctx.violation(key, f"the entry's file must be associated exactly once, last, with this entry's Platform: {p.describe()[:300]}", find.loc(loop))
+        n += 1
+        # events of the first entry = everything from its NEW_PLATFORM on
+        i0 = effs.index(newp[0])
+        effs = [e for e in effs[i0:] if e[0] != "loop-bound"]
+        if len(newp) != 1:
+            ctx.violation(key, f"{len(newp)} Platform objects are created for one database entry", find.loc())
+            continue
+        ok_name = len(newp[0]) >= 3 and vtext(newp[0][1]) == f"{conf}[0]"
+        ctx.check(ok_name, key + ":platform-name", f"the entry's Platform must be named after the platform being processed ({conf}'s key): Platform({', '.join(vtext(x) for x in newp[0][1:])})", find.loc())
+        state = [e[1].rsplit(".", 1)[0] for e in effs if e[0] == "call" and e[1].endswith(".associate")]
+        main = [e for e in effs if e[0] == "call" and e[1].endswith(".associate") and vtext(e[2]) == f"{ev}['file']"]
+        if len(main) != 1 or vtext(main[0][3]) != "PLAT1" or effs.index(main[0]) != len(effs) - 1:
+            ctx.violation(key, f"the entry's file must be associated exactly once, last, with this entry's Platform: {p.describe()[-300:]}", find.loc())
             continue
         ok = True
         why = ""
         n_inc = sum(1 for k, v in p.atoms.items() if k.startswith(f"more({ev}['include_files']") and v)
         n_def = sum(1 for k, v in p.atoms.items() if k.startswith(f"more({ev}['defines']") and v)
         n_ip = sum(1 for k, v in p.atoms.items() if k.startswith(f"more({ev}['include_paths']") and v)
-        defs = [e for e in effs if e[0] == "call" and e[1] == "PLAT.define"]
-        ips = [e for e in effs if e[0] == "call" and e[1] == "PLAT.add_include_path"]
+        defs = [e for e in effs if e[0] == "call" and e[1] == "PLAT1.define"]
+        ips = [e for e in effs if e[0] == "call" and e[1] == "PLAT1.add_include_path"]
         finds = [e for e in effs if e[0] == "FIND"]
         if len(defs) != n_def or len(ips) != n_ip or len(finds) != n_inc:
             ok, why = False, f"{len(defs)} defines / {len(ips)} include paths / {len(finds)} forced-include lookups for {n_def}/{n_ip}/{n_inc} list items"
+        for i, e in enumerate(ips):
+            if [vtext(x) for x in e[2:]] != [f"{ev}['include_paths'][{i}]"]:
+                ok, why = False, f"include paths must be handed to the platform one by one, in list order, unchanged: add_include_path({', '.join(vtext(x) for x in e[2:])})"
+        for i, e in enumerate(defs):
+            m = f"MACRO({ev}['defines'][{i}])"
+            if [vtext(x) for x in e[2:]] != [f"{m}.name", m]:
+                ok, why = False, f"every -D string must be parsed by macro_from_definition_string and defined under the macro's own name: define({', '.join(vtext(x) for x in e[2:])})"
         for e in finds:
-            if e[1] != "PLAT.find_include_file" or vtext(e[2]) != f"{ev}['include_files'][{finds.index(e)}]" or vtext(e[3]) != f"os.path.dirname({ev}['file'])" or len(e) > 4 and e[4] not in (False,):
+            if e[1] != "PLAT1.find_include_file" or vtext(e[2]) != f"{ev}['include_files'][{finds.index(e)}]" or vtext(e[3]) != f"os.path.dirname({ev}['file'])" or len(e) > 4 and e[4] not in (False, ("is_system_include", False)):
                 ok, why = False, f"forced include must be looked up like a quote include from the directory of the compiled file on this entry's platform: {e}"
             if any(effs.index(d) > effs.index(e) for d in defs + ips):
                 ok, why = False, "a -D / -I is applied after a forced include was looked up"
         found = [v for k, v in p.atoms.items() if k == "FOUND"]
-        incasc = [e for e in effs if e[0] == "call" and e[1] == "state.associate" and e not in main]
-        incins = [e for e in effs if e[0] == "call" and e[1] == "state.insert_file"]
+        incasc = [e for e in effs if e[0] == "call" and e[1].endswith(".associate") and e not in main]
+        incins = [e for e in effs if e[0] == "call" and e[1].endswith(".insert_file")]
+        warns = [e for e in effs if e[0] == "WARN" and e[1] == "log.warning"]
         if finds and found and found[0]:
-            if not (len(incasc) == len(finds) and len(incins) == len(finds) and all(vtext(a[2]) == "FOUND" and vtext(a[3]) == "PLAT" for a in incasc)):
+            if not (len(incasc) == len(finds) and len(incins) == len(finds) and all(vtext(a[2]) == "FOUND" and vtext(a[3]) == "PLAT1" for a in incasc)):
                 ok, why = False, "a found forced include must be inserted and associated with this entry's platform before the file itself"
+            if warns:
+                ok, why = False, "a warning is issued although the forced include was found"
         elif incasc or incins:
             ok, why = False, "forced include processed although not found"
-        ctx.check(ok, key, f"{why}: {p.describe()[:400]}", find.loc(loop))
+        elif finds:
+            if len(warns) != len(finds):
+                ok, why = False, f"{len(finds)} forced include(s) not found but {len(warns)} warning(s): every miss must be reported once"
+            else:
+                for i, w in enumerate(warns):
+                    t = vtext(w[2]) if len(w) > 2 else ""
+                    if "{" + f"{ev}['include_files'][{i}]" + "}" not in t or "{" + f"{ev}['file']" + "}" not in t:
+                        ok, why = False, f"the warning about a missing forced include must name the requested file and the compiled file: {t[:120]}"
+        ctx.check(ok, key, f"{why}: {p.describe()[-400:]}", find.loc())
+    if n < 3:
+        raise AnalysisError(f"finder.find: per-entry idiom not recognised ({n} paths construct a Platform)")
     ctx.floor(3)
 
 
